@@ -221,6 +221,9 @@ def monitor(ctx, programs, events, secs, stuck, count, trace):
                 ctx.fail("C13:refused-nonholder", f"thread {t} holds nothing but got RuntimeError", rp)
             elif o in ("slept", "wouldblock", "timedout") and not holders:
                 ctx.fail("C13:free-lock-not-granted", f"thread {t} was not granted the free lock: {o}", rp)
+            elif o in ("slept", "wouldblock", "timedout") and not others_opposite and not mine:
+                # held only in the state asked for: the lock is available to this thread too
+                ctx.fail("C13:shareable-lock-not-granted", f"thread {t} asked for {w} while the lock is held only as {w} by {holders}, and was not granted it: {o}", rp)
         elif lab[0] == "rel":
             _, w, t = lab
             if (t, w) in holders:
